@@ -338,16 +338,19 @@ class Circuit:
     def get_or_add_fork(self, name):
         return self.forks[name] if name in self.forks else Node(self, name)
 
-    def remove_dangling_nodes(self, root_node:Node):
+    def remove_dangling_nodes(self, root_node:Node, only=None):
         if len([l for l in root_node.outs if l is not None]) > 0: return
         if any(n is root_node for n in self.io_nodes): return  # ports stay in the circuit (io_nodes must not hold removed nodes)
+        # state elements are part of the interface (s_nodes) as well and are never dangling
+        if 'dff' in root_node.kind.lower() or 'latch' in root_node.kind.lower(): return
+        if only is not None and root_node not in only: return  # substitute() removes nothing outside the substituted cell
         lines = [l for l in root_node.ins if l is not None]
         drivers = [l.driver for l in lines]
         root_node.remove()
         for l in lines:
             l.remove()
         for d in drivers:
-            self.remove_dangling_nodes(d)
+            self.remove_dangling_nodes(d, only)
 
     def eliminate_1to1_forks(self):
         """Removes all forks that drive only one node.
@@ -434,10 +437,11 @@ class Circuit:
                 ll.reader = node_map[inn]  # connect to existing fork
                 ll.reader_pin = 0
             ll.reader.ins[ll.reader_pin] = ll
+        dangling = []
         for l, ll in zip(impl_out_lines, node_out_lines):  # connect outputs
             if ll is None:
                 if l.driver in node_map:
-                    self.remove_dangling_nodes(node_map[l.driver])
+                    dangling.append(node_map[l.driver])
                 continue
             if len(l.reader.outs) > 0:  # output is also read by impl. circuit, connect to fork.
                 ll.driver = node_map[l.reader]
@@ -446,6 +450,9 @@ class Circuit:
                 ll.driver = node_map[l.driver]
                 ll.driver_pin = l.driver_pin
             ll.driver.outs[ll.driver_pin] = ll
+        own_nodes = set(node_map.values())
+        for n in dangling:  # only now: logic shared with a connected output has its reader and stays
+            if n.circuit is not None: self.remove_dangling_nodes(n, own_nodes)
 
     def resolve_tlib_cells(self, tlib):
         """Substitute all technology library cells with kyupy native simulation primitives.
